@@ -510,10 +510,13 @@ theorem discardOne_ok_of_refcounted (g : Nat) (d : Dev) (host cnt : Nat)
     rw [h2]
     exact ⟨_, rfl⟩
 
-/-- the only error a `discardOne` can return is `free_clusters` hitting a
-    cluster without a refblock -/
+/-- the only errors a `discardOne` can return are `free_clusters` hitting a
+    cluster without a refblock (`other`) or a cluster whose refcount is already 0
+    (`invalid`).
+    CHANGED (was `e = .other`): the second case used to be a panic of
+    `decrement().unwrap()`; the code now returns an error. -/
 theorem discardOne_err (g : Nat) (d d' : Dev) (e : Err) (h : discardOne g d = (d', .err e)) :
-    e = .other := discardOne_err_other h
+    e = .other ∨ e = .invalid := discardOne_err_cases h
 
 /-- no outcome of `discardOne` touches the geometry, the L1 table, the refcount
     table or the backing chain -/
@@ -598,11 +601,14 @@ theorem discardRange_not_err (i : Info) (off len : Nat) (e : Err) : discardRange
       · simp only [h3, if_true]; split <;> simp
       · simp [h3]
 
-/-- on a writable device the only possible `Err` of `discard` is `Other`, coming
-    from `free_clusters` (a mapped cluster without refblock, i.e. an
-    inconsistent image); in particular never `ReadOnly`, `Unaligned`, … -/
+/-- on a writable device the only possible `Err`s of `discard` are `Other` and
+    `Invalid`, coming from `free_clusters` (a mapped cluster without refblock, or with
+    refcount 0, i.e. an inconsistent image); in particular never `ReadOnly`,
+    `Unaligned`, ….
+    CHANGED (was `e = .other`): `invalid` added, see `discardOne_err`. -/
 theorem discard_err_only_from_free (d d' : Dev) (off len : Nat) (e : Err)
-    (hro : d.info.readOnly = false) (h : Model.discard off len d = (d', .err e)) : e = .other := by
+    (hro : d.info.readOnly = false) (h : Model.discard off len d = (d', .err e)) :
+    e = .other ∨ e = .invalid := by
   cases hr : discardRange d.info off len with
   | panic p => unfold Model.discard at h; simp [hro, hr] at h
   | err x => exact absurd hr (discardRange_not_err _ _ _ _)
@@ -612,7 +618,7 @@ theorem discard_err_only_from_free (d d' : Dev) (off len : Nat) (e : Err)
     | some x =>
       obtain ⟨start, stop⟩ := x
       rw [discard_visits d off len start stop hro hr] at h
-      exact discardAll_err_other h
+      exact discardAll_err_cases h
 
 /-- `discard` on a writable device returns `Ok` provided every `discardOne`
     does: stated with an invariant `P` (for instance "every mapped data cluster
